@@ -28,8 +28,8 @@ PROOF_NOTE = ('Trusted: Lean kernel; axioms propext/Classical.choice/Quot.sound 
 
 NOT_APPLICABLE = {}
 
-prop('C02', level='proof', modules=['Polyseed.Props.C02'], suites=['gf'],
-     text='Theorems single_error, swap_error, unique_check_word, unique_word_at over ALL coefficient vectors (XOR-linearity of Horner evaluation + kernel-evaluated facts about all 2048 field elements: mul2 = multiplication by x mod x^11+x^2+1, injective, no cycle of length 1..15). The C gf_elem_mul2 is compared with the model on all 2048 elements, gf_poly_eval on unit vectors/random/valid polynomials.',
+prop('C02', level='proof', modules=['Polyseed.Props.C02', 'Polyseed.Props.C02Phrase'], suites=['gf'],
+     text='Theorems single_error, swap_error, unique_check_word, unique_word_at over ALL coefficient vectors, lifted to phrases (decodeExplicit_of_words, decodeExplicit_substituted, decodeExplicit_swapped / swap_error_coin: any string that normalises to the phrase with one word replaced or two unequal words exchanged is answered with the checksum status by explicit decoding, every coin) (XOR-linearity of Horner evaluation + kernel-evaluated facts about all 2048 field elements: mul2 = multiplication by x mod x^11+x^2+1, injective, no cycle of length 1..15). The C gf_elem_mul2 is compared with the model on all 2048 elements, gf_poly_eval on unit vectors/random/valid polynomials.',
      note=PROOF_NOTE + 'Modelled, not verified: gf.h (hand transcription); phrases are related to coefficient vectors by the word-lookup theorems of C07/C08.',
      technique='Lean 4 proof (linear algebra over GF(2048), decide +kernel over the field) + exhaustive correspondence on mul2',
      assumptions=['coefficients are < 2048 (word indices, coin < 2048)'])
@@ -105,8 +105,10 @@ prop('C07', level='proof', modules=['Polyseed.Props.C07'], suites=['find'], extr
      assumptions=['plain char signed (model parameter sgn = true); see C19'])
 prop('C08', level='proof', modules=['Polyseed.Props.C08'], suites=['find'],
      api=dict(cone=['decode', 'decodex', 'decoden'], weights=dict(variants=8, badtokens=4, roundtrip=1)),
-     text='Theorems find_exact_iff (Japanese, Korean, both Chinese lists: a token is accepted for a word iff it IS the word, for every NUL-free token; from bsearch/linear-search soundness + compare_str = 0 iff equal + the table certificates), exact_languages, findWord_sound (whatever index the search returns compares equal under the language comparator, all languages, all tokens). For the six abbreviating languages the rule (exact, or prefix of at least four letters; accents ignored in Spanish/French) is checked EXHAUSTIVELY per word on the real code and the model: every prefix length x every subset of accents kept/dropped x continuations (S-find), and through the API with real NFKD in composed and decomposed form (S-api). Open finding D6 (non-accent non-ASCII bytes are skipped too) is a KNOWN-FINDING; the full iff for the abbreviating languages is therefore not claimed as a theorem (find_iff_rule would be false without a Latin-domain hypothesis).',
-     note=PROOF_NOTE, technique='Lean 4 proof + exhaustive correspondence on find_word', assumptions=[])
+     text='Theorem find_iff_rule: in ALL ten languages, for EVERY token (NUL-free byte string) and every index, the lookup returns that index if and only if Rule accepts the token for that word, where Rule (written without the code) is: exact word; or, in the six abbreviating languages, a prefix of at least four letters; compared on the accent-stripped forms in Spanish and French. Built from: comparer_zero_iff (zero sets of the four comparators; compare_*_noaccent = compare_* on stripped strings, an identity), findWord_sound (bsearch / linear search return only indices that compare equal), and the per-table bsearch decision-tree certificate extended to EVERY admissible abbreviation of every word (kernel-evaluated, ~1.5 min per list in parallel). Corollaries find_only_by_rule, find_exact_iff, too_short, continues_otherwise. S-find replays every prefix length x accent subset x continuation per word on the real code against the model and an independent Python rendering of the rule; S-api does it through the API with real NFKD. Open finding D6: strip removes every byte >= 0x80, not only combining accents - stated in the theorem as it is, listed as KNOWN-FINDING.',
+     note=PROOF_NOTE + 'strip = removal of all bytes >= 0x80; it coincides with "accents dropped" on NFKD Latin text only (D6).',
+     technique='Lean 4 proof (comparator zero sets + search soundness + kernel-evaluated decision-tree certificate over all admissible abbreviations) + exhaustive per-word correspondence',
+     assumptions=['tokens are NUL-free byte strings (what the tokeniser delivers)'])
 prop('C19', level='other', modules=['Polyseed.Props.C19'], suites=[], extra='extra_sign',
      text='Theorems rank_is_signed_order / sgnCmp_is_signed / isNeg_is_signed / isNeg_is_unsigned / rank_facts: after the repair of D2 the model has NO signedness parameter (every comparison goes through the unsigned byte value, as compare_char and IS_NON_ASCII do in the code) and the explicit order is exactly the signed-char order the shipped sorted lists were built for. Runtime (S-sign): the same unit and API scripts (all languages; composed, decomposed, abbreviated, unaccented phrases; non-ASCII passwords) on a -fsigned-char and a -funsigned-char build, each compared with the one model and with each other - a difference is reported with the failing input.', note=PROOF_NOTE, technique='Lean 4 theorem about the model parameter + two builds', assumptions=[],
      explanation='two char-signedness builds of the tree run the same scripts; their transcripts are compared with each other and with the model')
